@@ -471,7 +471,7 @@ pub fn enc_rawnode(w: &mut W, n: &Node) {
     w.n(p.prev_hs.2);
     w.n(p.max_number);
     w.n(p.records.len() as u64);
-    for (num, le, sn) in &p.records {
+    for (num, le, sn, hc) in &p.records {
         w.n(*num);
         for o in [le, sn] {
             match o {
@@ -483,6 +483,7 @@ pub fn enc_rawnode(w: &mut W, n: &Node) {
                 }
             }
         }
+        w.b(*hc);
     }
     w.n(p.commit_since_index);
 }
@@ -672,6 +673,32 @@ pub fn site_of(msg: &str) -> u64 {
             return *v;
         }
     }
+    if msg.contains("Option::unwrap()") {
+        // unwrap sites cannot be told apart by message: look at the source at the panic location
+        if let Some(loc) = msg.split(" @ ").last() {
+            let mut it = loc.rsplitn(2, ':');
+            let line: usize = it.next().and_then(|x| x.parse().ok()).unwrap_or(0);
+            let file = it.next().unwrap_or("");
+            if let Ok(text) = std::fs::read_to_string(file) {
+                let lines: Vec<&str> = text.lines().collect();
+                let lo = line.saturating_sub(4);
+                let hi = (line + 1).min(lines.len());
+                let window = lines[lo..hi].join(" ");
+                if file.ends_with("raft.rs") {
+                    if window.contains("self_id") || window.contains("get_mut(self.id)") || window.contains("get_mut(id)") {
+                        return 2005;
+                    }
+                    if window.contains("raft_log.term(") {
+                        return 2019;
+                    }
+                    return 2027;
+                }
+                if file.ends_with("raw_node.rs") && window.contains("records.back()") {
+                    return 2106;
+                }
+            }
+        }
+    }
     if msg.contains("left == right") || msg.contains("left: ") {
         if msg.contains("raft.rs") {
             return 2011; // assert_eq!(last_index, self.raft_log.persisted) is the only assert_eq in raft.rs reachable
@@ -839,9 +866,27 @@ impl Driver {
             }
             Call::Ready => {
                 cw.n(6);
+                let pre_hs = node.verif_private().prev_hs;
+                let pre_tv_changed = node.raft.term != pre_hs.0 || node.raft.vote != pre_hs.1;
+                let pre_outstanding = {
+                    let p = node.verif_private();
+                    // records are drained when the node became leader since the last Ready
+                    let drained = p.prev_role != StateRole::Leader && node.raft.state == StateRole::Leader;
+                    !drained && p.records.iter().any(|r| r.3)
+                };
+                let persisted_flag_default = !was_leader || pre_tv_changed || pre_outstanding;
                 catch(|| node.ready()).map(|rd| {
+                    let persisted_flag = if !rd.messages().is_empty() {
+                        false
+                    } else if !rd.persisted_messages().is_empty() {
+                        true
+                    } else {
+                        persisted_flag_default
+                    };
                     enc_ready(&mut ret, &rd);
-                    ret.b(!was_leader);
+                    // is_persisted_msg is private: messages() is empty exactly when it is set, unless there are no
+                    // messages at all, in which case recompute it the way ready() does (hook view of the records)
+                    ret.b(persisted_flag);
                     ret.b(rd.must_sync());
                     // light part
                     ret.n(0); // commit_index of the embedded LightReady is always None
